@@ -255,7 +255,7 @@ def rule_N2(prog, fixture=False):
 N5_FILES = [
     (re.compile(r"include/dsplib/(lms|rls)\.h$"), "C12"),
     (re.compile(r"include/dsplib/tuner\.h$|lib/hilbert\.cpp$|include/dsplib/hilbert\.h$"), "C14"),
-    (re.compile(r"lib/corr\.cpp$|lib/medfilt\.cpp$"), "C16"),
+    (re.compile(r"lib/corr\.cpp$|lib/medfilt\.cpp$|lib/math\.cpp$"), "C16"),
     (re.compile(r"lib/awgn\.cpp$|lib/snr\.cpp$|lib/random\.cpp$"), "C19"),
     (re.compile(r"include/dsplib/audio/[^/]+\.h$|lib/agc\.cpp$|lib/ma-filter\.h$"), "C20"),
     (re.compile(r"lib/resample/"), "C08"),
@@ -380,4 +380,33 @@ def rule_N6(prog, fixture=False):
             else:
                 res.add(key, DISCHARGED, where, what, "receives integer arguments", func=g.name, extra=extra)
     res.stats["integer_parameters_used_as_reals"] = n
+    # single precision in a double-precision build: with real_t = double nothing in these files has a reason to be `float`; a
+    # float accumulator, a std::greater<float> comparator or a float temporary silently drops 29 bits of every sample that
+    # passes through it
+    cfg = getattr(prog, "config", None)
+    if not (cfg is not None and getattr(cfg, "float32", False)):
+        n_float = 0
+        for g in sorted(prog.functions.values(), key=lambda f: (f.file, f.line, f.name)):
+            if g.get("implicit") or g.file.endswith("coverage.cc"):
+                continue
+            rel = prog.rel(g.file)
+            props = [p for (rx, p) in N5_FILES if rx.search(rel)]
+            if fixture:
+                props = ["C19"]
+            if not props:
+                continue
+            n_float += 1
+            hit = None
+            for x in g.walk():
+                t = x.type or ""
+                if re.search(r"(^|[^\w])float([^\w]|$)", t) and not re.search(r"\(.*float.*\)", t):
+                    hit = x
+                    break
+            if hit is not None:
+                res.add("N6:float:%s" % fkey(g), VIOLATED, "%s:%d" % (rel, hit.line), "%s works in double precision" % g.short,
+                        "`%s` has type %s although real_t is double in this build: values that pass through it keep 24 bits of "
+                        "mantissa, so results depend on the magnitude of the data (a comparison of neighbouring samples, a sum, "
+                        "a threshold) in a way the double-precision contract does not allow" % (hit.text()[:60], hit.type),
+                        func=g.name, extra={"props": props})
+        res.stats["functions_scanned_for_float"] = n_float
     return res
